@@ -66,6 +66,11 @@ func (r *RNN) Apply(inputs []tensor.Tensor) ([]tensor.Tensor, error) {
 		return nil, ops.ErrUnsupportedInput("sequence lens", r)
 	}
 
+	// One activation function is needed for each of the 1 activation slots of the operator.
+	if len(r.activations) != 1 {
+		return nil, ops.ErrInvalidAttribute(ops.ActivationsAttr, r)
+	}
+
 	X := inputs[0]
 	seqLength := X.Shape()[0]
 	batchSize := X.Shape()[1]
